@@ -411,7 +411,8 @@ class CasJsonSerializer:
                 raise Exception(f"Invalid type system mode: [{type_system_mode}]")
 
             for type_ in sorted(types_to_include, key=lambda x: x.name):
-                if type_.name == TYPE_NAME_DOCUMENT_ANNOTATION:
+                # The implicitly added DocumentAnnotation is not written, unless it was extended
+                if type_.name == TYPE_NAME_DOCUMENT_ANNOTATION and [f.name for f in type_.features] == ["language"]:
                     continue
                 json_type = self._serialize_type(type_)
                 types[json_type[NAME_FIELD]] = json_type
